@@ -447,16 +447,20 @@ def transitivity(U: cu.Universe, rows: dict[int, int], members_idx: list[int]) -
                     u += 1
             m >>= 1
             t += 1
+    # cause-level grouping: by the shapes of the upper link (t, u), fixed tuples of any length being one shape
+    def coarse(k: str) -> str:
+        return "TupleFixed" if k.startswith("Tuple") and k[5:].isdigit() else k
+
     groups: "OrderedDict[tuple, list]" = OrderedDict()
     for s, t, u in bad_triples:
-        groups.setdefault((shapes[s], shapes[t], shapes[u]), []).append((s, t, u))
+        groups.setdefault((coarse(shapes[t]), coarse(shapes[u])), []).append((s, t, u))
     viol = []
     for k, members in groups.items():
         s, t, u = members[0]
         viol.append(Violation(
             f"transitivity|{U.strs[s]}|{U.strs[t]}|{U.strs[u]}",
             f"transitivity fails on Any-free types: {U.labels[s]!r} <: {U.labels[t]!r} <: {U.labels[u]!r} but not "
-            f"{U.labels[s]!r} <: {U.labels[u]!r} [{len(members)} triples of shapes {' x '.join(k)}]",
+            f"{U.labels[s]!r} <: {U.labels[u]!r} [{len(members)} triples whose upper link t <: u has shapes {' <: '.join(k)}]",
             {"kind": "triple", "tier": U.tier, "law": "transitivity", "s": U.labels[s], "t": U.labels[t],
              "u": U.labels[u], "group_size": len(members),
              "members": [[U.labels[a], U.labels[b], U.labels[c]] for a, b, c in members[:MAX_MEMBERS]]}))
@@ -468,17 +472,19 @@ def mismatch_violations(U: cu.Universe, mism: list[tuple]) -> list[Violation]:
     groups: "OrderedDict[tuple, list]" = OrderedDict()
     for m in mism:
         mode, op, s, t = m[0], m[1], m[2], m[3]
-        groups.setdefault((op, shapes[s], shapes[t]), []).append(m)
+        groups.setdefault(tuple(sorted((shapes[s], shapes[t]))), []).append(m)
     out = []
-    for (op, k1, k2), members in groups.items():
-        m = members[0]
+    for (k1, k2), members in groups.items():
+        # representative: simplest op first (sub < proper < same < join < meet), then simplest pair, sweeps before (iv)
+        m = min(members, key=lambda x: (cl.OPS.index(x[1]), x[2], x[3], x[6] is not None, x[0], str(x[6])))
+        op = m[1]
         mode, _op, s, t, ref, got = m[:6]
         prior = m[6]
         group = m[7]
         modes = sorted({x[0] for x in members})
         what = (f"{op}({U.labels[s]!r}, {U.labels[t]!r}) = {ref!r} right after reset_all_subtype_caches() but {got!r} "
                 f"in mode {mode}" + (f" after the single query {prior[0]}({U.labels[prior[1]]!r}, {U.labels[prior[2]]!r})" if prior else "")
-                + f" [{len(members)} queries of shapes {k1} x {k2}, modes {modes}]")
+                + f" [{len(members)} cache-dependent answers for pairs of shapes {k1} x {k2}, ops {sorted({x[1] for x in members})}, modes {modes}]")
         out.append(Violation(
             f"cache_dependence|{op}|{U.strs[s]}|{U.strs[t]}", what,
             {"kind": "cache", "tier": U.tier, "op": op, "s": U.labels[s], "t": U.labels[t], "mode": mode,
